@@ -40,15 +40,16 @@ const (
 
 // Options for an environment.
 type Options struct {
-	Mode         Mode
-	Dir          string // base directory; db and roots are created below it
-	Roots        int    // number of storage roots (default 1)
-	MaxDirCount  uint64 // default 1_000_000
-	GCPeriod     time.Duration
-	NumWorkers   int
-	SendDuration time.Duration
-	RootPaths    []string // overrides Roots when set
-	Proxy        bool     // gRPC: put a cuttable TCP proxy between client and server
+	Mode           Mode
+	Dir            string // base directory; db and roots are created below it
+	Roots          int    // number of storage roots (default 1)
+	MaxDirCount    uint64 // default 1_000_000 (unless MaxDirExplicit)
+	MaxDirExplicit bool   // use MaxDirCount as given, even 0
+	GCPeriod       time.Duration
+	NumWorkers     int
+	SendDuration   time.Duration
+	RootPaths      []string // overrides Roots when set
+	Proxy          bool     // gRPC: put a cuttable TCP proxy between client and server
 }
 
 // Env is one opened database.
@@ -79,7 +80,7 @@ func (o Options) config() config.Config {
 		}
 	}
 	mdc := o.MaxDirCount
-	if mdc == 0 {
+	if mdc == 0 && !o.MaxDirExplicit {
 		mdc = 1_000_000
 	}
 	gc := o.GCPeriod
